@@ -330,14 +330,14 @@ Definition plain_geom (g : geom) : Prop :=
 
 Lemma plain_p2f g x : plain_geom g -> length x = par_dim g -> p2f g (V1 x) = Some (funval g x).
 Proof.
-  destruct g as [n | r c o | | | ]; cbn [plain_geom]; intros H Hx; try contradiction.
+  destruct g as [n | r c o | | | | ]; cbn [plain_geom]; intros H Hx; try contradiction.
   - reflexivity.
   - destruct o; [|contradiction]. cbn [p2f funval par_dim] in *. rewrite Hx, Nat.eqb_refl. reflexivity.
 Qed.
 
 Lemma plain_f2p g l : plain_geom g -> f2p g (funval g l) = Some (V1 l).
 Proof.
-  destruct g as [n | r c o | | | ]; cbn [plain_geom]; intros H; try contradiction.
+  destruct g as [n | r c o | | | | ]; cbn [plain_geom]; intros H; try contradiction.
   - reflexivity.
   - destruct o; [|contradiction]. reflexivity.
 Qed.
